@@ -105,6 +105,7 @@ def _detect_alleles(variants, var_progress, first, bam_read):
         int n = len(var_progress)
         int cigar_op                            # copy python vars here ...
         int length                              # ... for runtime optimization
+        int block_start = ref_pos               # first aligned base of the current block (after N)
 
     # Skip variants that come before this region
     while j < n:
@@ -130,6 +131,7 @@ def _detect_alleles(variants, var_progress, first, bam_read):
         # MIDNSHPX= => 012345678. Skip for soft clipping/padding, etc.
         if cigar_op == 3:  # N operator (reference skip)
             ref_pos += length
+            block_start = ref_pos
             continue
         elif cigar_op == 4:  # S operator (soft clipping)
             query_pos += length
@@ -147,9 +149,10 @@ def _detect_alleles(variants, var_progress, first, bam_read):
                 break
 
             ref_len = len(variants[var_id].reference_allele)
-            # Special case: An insertion located exactly at the first aligned base lies in front of
-            # the alignment. The read carries no evidence about it (unless it starts with an I-Op)
-            if ref_len == 0 and cigar_op != 1 and var_pos == bam_read.reference_start:
+            # Special case: An insertion located exactly at the first aligned base (of the read or
+            # of the part following a reference skip) lies in front of the aligned bases. The read
+            # carries no evidence about it (unless an I-Op is found there)
+            if ref_len == 0 and cigar_op != 1 and var_pos == block_start:
                 j += 1
                 continue
             # Special case: If a non-insertion variant is seen by I-Op, continue with next Op
